@@ -2,11 +2,14 @@ package c06
 
 import (
 	"fmt"
+	"math"
 	"sort"
 	"sync"
 	"unicode"
 
 	ucd "github.com/go-text/typesetting/unicodedata"
+
+	"verif/internal/ev"
 )
 
 // ---- class names (for messages, labels and signatures) ----
@@ -53,7 +56,7 @@ func lineSigRaw(r rune) string {
 	raw := ucd.LookupLineBreakClass(r)
 	s := lineSig(r)
 	if raw != resolveLB1(r) {
-		s += "<" + lineNames[raw]
+		s += "<" + rawLineName(r)
 	}
 	return s
 }
@@ -166,7 +169,7 @@ func candidates() []rune {
 			set[r+1] = struct{}{}
 		}
 		for r := range set {
-			if r < 0 || r > 0x10FFFF || (r >= 0xD800 && r <= 0xDFFF) {
+			if r < 0 || r > 0x10FFFF { // lone surrogates are legal []rune values (class SG, resolved by LB1)
 				continue
 			}
 			cands = append(cands, r)
@@ -313,13 +316,111 @@ func edgePoints() []rune {
 		for _, v := range []rune{0x7F, 0x80, 0xFF, 0x100, 0x7FF, 0x800, 0xFFFF, 0x10000, 0x10FFFF, 0x2028, 0x2029, 0x200D, 0x200B} {
 			around(v)
 		}
+		// the middle member of every break class (first and last are range edges already)
+		mid := func(t *unicode.RangeTable) {
+			if m := tableMembers(t); len(m) > 0 {
+				set[m[len(m)/2]] = struct{}{}
+			}
+		}
+		for _, t := range ucd.VerifLineBreaks() {
+			mid(t)
+		}
+		for _, t := range gs {
+			mid(t)
+		}
+		for _, t := range ws {
+			mid(t)
+		}
 		for r := range set {
-			if r < 0 || r > 0x10FFFF || (r >= 0xD800 && r <= 0xDFFF) {
+			if r < 0 || r > 0x10FFFF { // lone surrogates stay: legal []rune values, class SG
 				continue
 			}
 			edges = append(edges, r)
 		}
+		// values that are not code points at all (totality: every lookup must treat them alike)
+		edges = append(edges, -1, math.MinInt32, 0x110000, math.MaxInt32)
 		sort.Slice(edges, func(i, j int) bool { return edges[i] < edges[j] })
 	})
 	return edges
+}
+
+// ---- per-class coverage of the alphabets ----
+
+// rawLineName is the library's line break class before LB1, with SA split by the general category
+// that LB1 looks at.
+func rawLineName(r rune) string {
+	raw := ucd.LookupLineBreakClass(r)
+	if raw == ucd.BreakSA {
+		switch ucd.LookupType(r) {
+		case unicode.Mn:
+			return "SA-Mn"
+		case unicode.Mc:
+			return "SA-Mc"
+		}
+		return "SA-other"
+	}
+	return lineNames[raw]
+}
+
+func tableMembers(t *unicode.RangeTable) []rune {
+	var out []rune
+	if t == nil {
+		return nil
+	}
+	for _, x := range t.R16 {
+		for v := rune(x.Lo); v <= rune(x.Hi); v += rune(x.Stride) {
+			out = append(out, v)
+		}
+	}
+	for _, x := range t.R32 {
+		for v := rune(x.Lo); v <= rune(x.Hi); v += rune(x.Stride) {
+			out = append(out, v)
+		}
+	}
+	return out
+}
+
+// alphabetCoverage counts, for every class of the library's three tables (line classes before
+// LB1 incl. SG, AI, CJ, XX = not listed, SA split into Mn / Mc / other; grapheme and word classes
+// incl. "Other"), how many runes of the alphabet have it, records the counts as labels
+// "alphabet:<job>:<algo>:<class>" and stops the run as an infrastructure failure if a class that
+// exists in the tables has no rune in the alphabet (a generator gap must not pass silently).
+func alphabetCoverage(job string, alphabet []rune) {
+	need := map[string]bool{"line:XX": true, "grapheme:Other": true, "word:Other": true}
+	for _, t := range ucd.VerifLineBreaks() {
+		for _, r := range tableMembers(t) {
+			if ucd.LookupLineBreakClass(r) == t { // first table wins in the lookup
+				need["line:"+rawLineName(r)] = true
+			}
+		}
+	}
+	_, gs := ucd.VerifGraphemeBreaks()
+	for _, t := range gs {
+		if len(tableMembers(t)) > 0 {
+			need["grapheme:"+gNames[t]] = true
+		}
+	}
+	_, ws := ucd.VerifWordBreaks()
+	for _, t := range ws {
+		if len(tableMembers(t)) > 0 {
+			need["word:"+wNames[t]] = true
+		}
+	}
+	have := map[string]int64{}
+	for _, r := range alphabet {
+		have["line:"+rawLineName(r)]++
+		have["grapheme:"+gNames[ucd.LookupGraphemeBreakClass(r)]]++
+		have["word:"+wNames[ucd.LookupWordBreakClass(r)]]++
+	}
+	keys := make([]string, 0, len(need))
+	for k := range need {
+		keys = append(keys, k)
+	}
+	sort.Strings(keys)
+	for _, k := range keys {
+		if have[k] == 0 {
+			infraFatal("alphabet of %s has no rune of class %s", job, k)
+		}
+		ev.LabelN("alphabet:"+job+":"+k, have[k])
+	}
 }
